@@ -159,8 +159,9 @@ def gen_pdus(rng, n):
             body = bytes(rng.randrange(256) for _ in range(rng.randrange(0, 40)))
             out.append((pdu(rng.choice(cmds), 0, seq, body), 'cmd-random-body'))
         elif k in (2, 3, 4):
-            m = L.rand_sm(rng, 'DeliverSm')
             try:
+                # (a library that refuses to build one of its own messages does not keep the check from feeding it the others)
+                m = L.rand_sm(rng, 'DeliverSm')
                 m.sequence_num = seq
                 m.set_encoding_info(rng.choice(('gsm0338', 'ucs2', 'ascii')), None)
                 base = m.pdu()
@@ -182,8 +183,8 @@ def gen_pdus(rng, n):
                 bytes([rng.choice((0, 1, 3))]) + b'\x00' + bytes([len(text)]) + text.encode('latin-1')
             out.append((pdu(5, 0, seq, body), 'receipt'))
         elif k == 6:
-            m = L.rand_other(rng)
             try:
+                m = L.rand_other(rng)
                 m.sequence_num = seq
                 base = m.pdu()
             except Exception:      # noqa
